@@ -329,6 +329,17 @@ def check_reload(case):
                 if o1 != o3:
                     bad = (t, o1, o3, 'GenParser().parse(asmodel=False)')
                     break
+        if not bad and parser_cls is not None and len(m.rules) > 1:
+            other = m.rules[-1].name  # the generated class must honour start= like the model does
+            for t in inputs[:12]:
+                o1 = outcome(m, t, start=other)
+                try:
+                    o3 = outcome(parser_cls(), t, asmodel=False, start=other)
+                except BaseException as e:  # noqa: BLE001
+                    o3 = ('exc', type(e).__name__)
+                if o1 != o3:
+                    bad = (t, o1, o3, f'GenParser().parse(asmodel=False, start={other!r})')
+                    break
         if bad:
             fail(route, 'parse', f'input {bad[0]!r}: original {show(bad[1])} / reloaded ({bad[3]}) {show(bad[2])}', bad[0],
                  via_class=bad[3].startswith('GenParser'))
